@@ -28,10 +28,12 @@ CHECKS = {
 CHECKS.update({
  "C04": dict(ref="DESIGN.md 5/C04", engine="GribiServer",
    text="GribiServer models one received message per step with the election/client snapshot taken once per request; TLC checks OnlyPrimaryWrites and ElecOnlyByElection (action properties) over all interleavings of open/announce/operate/close of 2-3 sessions on an id lattice spanning both 64-bit halves; TLC-emitted message sequences and seeded random profiles are driven through the real server.Modify on in-process streams; every RIB call that the specification does not allow at that point (ribCallUnexpected), every state change outside such a call and every divergence of the session's recorded election id are reported.",
-   note="message grain: sessions are driven one message at a time (lock-level interleavings inside one message are C11's subject); trusted: TLC, hooks, in-process stream"),
+   note="message grain: sessions are driven one message at a time; handler interleavings at the gates between critical sections: GribiServerSched (see C11); trusted: TLC, hooks, in-process stream",
+   engine2="GribiServer+GribiServerSched"),
  "C05": dict(ref="DESIGN.md 5/C05", engine="GribiServer",
    text="TLC checks ElecIsMax (learnt id = maximum announced, 128-bit order), ElecMonotone and LowerNeverSteals on all announcement sequences of 3 sessions over a 3x3 id lattice; every sequence of parameter / election messages of two (three) sessions over a single id (ties, re-announcements) is emitted exhaustively; on the real server every election reply, the learnt id and the primary are compared after every message (ids concretised order-preservingly to uint64 boundary values 1, 5, 2^32, 2^63, 2^64-1).",
-   note="abstract ids are ranks into a table of six uint64 values per half; sequential announcements (concurrent ones: C11)"),
+   note="abstract ids are ranks into a table of six uint64 values per half; interleaved announcements: GribiServerSched schedules (store / compare-and-set of different sessions interleaved) and C11",
+   engine2="GribiServer+GribiServerSched"),
  "C06": dict(ref="DESIGN.md 5/C06", engine="GribiServer",
    text="The specification derives, per operation, the exact ModifyResponse (RIB then FIB acks per acknowledged id, FAILED per failed id) from the RIB call's result or from the server's own checks; TLC checks OneVerdict; on the real server every response is compared, extra, missing, misordered and foreign results are reported; held operations resolved by later operations and hand-overs of the primary role are part of the driven histories. One open known finding (held operation answered on another session's stream).",
    note="a response lost because the RPC is ending (fatal error of a later operation / failed write) is allowed, as the property excuses ended streams"),
@@ -58,9 +60,10 @@ CHECKS.update({
 })
 CHECKS.update({
  "C11": dict(ref="DESIGN.md 5/C11", engine="GribiServerCS",
-   text="GribiServerCS models the server's lock-protected critical sections (session table, parameter check/set, election store and compare-and-set, per-request snapshot); TLC explores every interleaving of the store/compare-and-set sections of three sessions and checks quiescent consistency and monotonicity; on the real code concurrent scenarios (2-4 Modify sessions on disjoint key ranges, Get readers, Flush callers) run in a binary built with -race: any race report is a violation, every request must be answered within a watchdog (blocked frames are recorded), and the sequence of critical-section events (sequence numbers taken in the hooks, inside the locks) is validated by TLC against GribiServerCS: atomic compare-and-set outcomes, untorn snapshots, quiescent election state, and - without overlapping Flush - installed next-hops equal to the fold of the acknowledged operations.",
+   text="GribiServerCS models the server's lock-protected critical sections (session table, parameter check/set, election store and compare-and-set, per-request snapshot); TLC explores every interleaving of the store/compare-and-set sections of three sessions and checks quiescent consistency and monotonicity; on the real code concurrent scenarios (2-4 Modify sessions on disjoint key ranges, Get readers, Flush callers) run in a binary built with -race: any race report is a violation, every request must be answered within a watchdog (blocked frames are recorded), and the sequence of critical-section events (sequence numbers taken in the hooks, inside the locks) is validated by TLC against GribiServerCS: atomic compare-and-set outcomes, untorn snapshots, quiescent election state, and - without overlapping Flush - installed next-hops equal to the fold of the acknowledged operations. GribiServerSched models the handlers of concurrent Modify sessions and a Flush caller as gate-to-gate segments (store | compare-and-set; snapshot | per-operation check and RIB call; flush check | flush); TLC checks every interleaving of bounded instances and its schedules (all histories of small instances + simulation of 3 sessions) are replayed into one real server through the gates, the election state, recorded ids, installed next-hops and replies being validated by TLC after every segment.",
    note="data races are observed by Go's race detector on the schedules the runtime produced in this run; the specification contributes the atomicity/consistency oracle for the recorded interleavings (DESIGN 7)",
-   tech="explicit TLA+ spec at critical-section grain (TLC) + trace validation of concurrent runs; race detector as observer"),
+   tech="explicit TLA+ specs at critical-section and handler-segment grain (TLC); TLC-generated interleavings replayed through scheduler gates into the real server; trace validation of free-running concurrent runs; race detector as observer",
+   engine2="GribiServerCS+GribiServerSched"),
  "C13": dict(ref="DESIGN.md 5/C13", engine="GribiClient",
    text="GribiClient models Q/StartSending/the receiver's handling of every response kind/AwaitConverged; TLC checks Conservation, NeverTwice and ConvergedMeansAnswered over all batches against all server behaviours (reordering across ids, batching, RIB before FIB, election/parameter responses, unknown ids, repeated terminal results, multi-field responses) and emits sequences; on the real client (scripted stub stream) pending operations, results with their operation type/key, error counts, what reached the stream and the AwaitConverged verdict are compared after every step; Status() snapshots taken concurrently with the receiver - one of them held at a gate between its two reads while a response is handled - must account for every operation. One open known finding.",
    note="call grain: the sender goroutine is eager (harness waits for its Send); goroutine grain: see C14; ids unique in TLC-emitted sequences except deliberate clashes with a pending id",
@@ -117,6 +120,8 @@ def main():
              "kind_free_text": "TLA+ spec of rib/rib.go; GribiRIB_MC (bounded instance, input emission), GribiRIBTrace (trace validation); Go harness /verif/harness (vh rib-run)"},
             {"name": "GribiServerCS", "path": "/verif/spec/GribiServerCS.tla", "serves_properties": ["C11"], "kind_free_text": "critical-section grain spec + GribiServerCS_MC + GribiServerCSTrace; vh conc-run built with -race"},
             {"name": "GribiClient", "path": "/verif/spec/GribiClient.tla", "serves_properties": ["C13", "C14"], "kind_free_text": "client library spec + GribiClient_MC + GribiClientTrace; vh client-run with scripted stub stream"},
+            {"name": "GribiServerSched", "path": "/verif/spec/GribiServerSched.tla", "serves_properties": ["C04", "C05", "C11"], "kind_free_text": "handler-segment grain spec of concurrent Modify sessions and Flush on top of GribiServerCS + GribiServerSched_MC (all interleavings, schedule emission) + GribiServerSchedTrace; vh sched-run replays schedules through the server's gates"},
+            {"name": "GribiRIBConc", "path": "/verif/spec/GribiRIBConc.tla", "serves_properties": ["C01", "C08"], "kind_free_text": "lock-grain spec of Flush over several network instances vs concurrent installs (linearizability) + GribiRIBConc_MC + GribiRIBConcTrace; vh lin-run records stamped concurrent histories of the real rib package"},
             {"name": "GribiClientProc", "path": "/verif/spec/GribiClientProc.tla", "serves_properties": ["C13", "C14"], "kind_free_text": "goroutine-grain spec of the client (application, sender, receiver, channels, RWMutex) + GribiClientProc_MC (safety, schedule emission) + GribiClientProc_Live (termination under fairness) + GribiClientProcTrace; vh proc-run replays schedules through the client's scheduler gates"},
             {"name": "GribiReconcile", "path": "/verif/spec/GribiReconcile.tla", "serves_properties": ["C15"], "kind_free_text": "plan specification + GribiReconcile_MC + GribiReconcileTrace; vh recon-run"},
             {"name": "GribiChk", "path": "/verif/spec/GribiChk.tla", "serves_properties": ["C17"], "kind_free_text": "verdict specification + GribiChk_MC (case enumeration) + GribiChkTrace; vh chk-run"},
